@@ -238,6 +238,8 @@ Proof.
     destruct (nth_error (proms s) p) as [[op|]|] eqn:HP; try exact I.
     fire_case F. cbn [fst]. pose proof (pinv_fire_prom isvoid s p op None None I HP po_none) as I2. rewrite F in I2. exact I2.
   - destruct (nth_error (proms s) p) as [[op|]|] eqn:HP; try exact I.
+    fire_case F. cbn [fst]. pose proof (pinv_fire_prom isvoid s p op None (Some None) I HP po_empty) as I2. rewrite F in I2. exact I2.
+  - destruct (nth_error (proms s) p) as [[op|]|] eqn:HP; try exact I.
     fire_case F. cbn [fst]. pose proof (pinv_fire_prom isvoid s p op (Some (OVal v)) (Some None) I HP po_empty) as I2. rewrite F in I2. exact I2.
   - destruct (nth_error (proms s) p) as [[op|]|] eqn:HP; try exact I.
     fire_case F. cbn [fst]. pose proof (pinv_fire_prom isvoid s p op (Some (OExc e)) (Some None) I HP po_empty) as I2. rewrite F in I2. exact I2.
@@ -348,12 +350,12 @@ Qed.
 (* destroying / dropping an owner resolves its future to no-value (payload untouched), exactly one resolve() *)
 Theorem destroy_resolves isvoid s p cp :
   PInv s -> nth_error (proms s) p = Some (Some (Some cp)) ->
-  forall x, x = PDestroy p \/ x = PDrop p ->
+  forall x, x = PDestroy p \/ x = PDrop p \/ x = PUnwind p ->
   exists cl cl', nth_error (cells s) cp = Some cl /\ nth_error (cells (fst (pstep isvoid s x))) cp = Some cl' /\
                  c_slot cl' = CReady /\ c_pay cl' = c_pay cl /\ c_nres cl' = 1.
 Proof.
   intros I HP x Hx. destruct (owner_pending s p cp I HP) as (cl & l & HC & SL & NR & R1).
-  destruct Hx as [-> | ->]; cbn [pstep]; rewrite HP; cbn [fire]; unfold resolve; rewrite HC; cbn [fst set_prom set_cell cells];
+  destruct Hx as [-> |[-> | ->]]; cbn [pstep]; rewrite HP; cbn [fire]; unfold resolve; rewrite HC; cbn [fst set_prom set_cell cells];
     rewrite nth_set_nth, Nat.eqb_refl, HC; exists cl; eexists; repeat split; try reflexivity; cbn [c_nres]; lia.
 Qed.
 
@@ -395,6 +397,8 @@ Proof.
     pose proof (pinv2_fire isvoid s op None I) as I2. rewrite F in I2. exact I2.
   - destruct (nth_error (proms s) p) as [[op|]|]; try exact I. destruct (cell_is_init s c) eqn:CI; [|exact I].
     fire_case F. cbn [fst]. pose proof (pinv2_fire isvoid _ op None (pinv2_take s c I CI)) as I2. rewrite F in I2. exact I2.
+  - destruct (nth_error (proms s) p) as [[op|]|]; try exact I. fire_case F. cbn [fst].
+    pose proof (pinv2_fire isvoid s op None I) as I2. rewrite F in I2. exact I2.
   - destruct (nth_error (proms s) p) as [[op|]|]; try exact I. fire_case F. cbn [fst].
     pose proof (pinv2_fire isvoid s op None I) as I2. rewrite F in I2. exact I2.
   - destruct (nth_error (proms s) p) as [[op|]|]; try exact I. fire_case F. cbn [fst].
@@ -468,6 +472,8 @@ Proof.
       destruct (Nat.eqb_spec c0 c); [contradiction|exact HC].
     + cbn [fst set_prom cells]. unfold take_promise. rewrite A. cbn [set_cell cells]. rewrite nth_set_nth.
       destruct (Nat.eqb_spec c0 c); [contradiction|exact HC].
+  - destruct (nth_error (proms s) p) as [[op|]|] eqn:HP; try exact HC. fire_case F. cbn [fst set_prom cells].
+    pose proof (FK op None (PK p op HP)) as Q. rewrite F in Q. exact Q.
   - destruct (nth_error (proms s) p) as [[op|]|] eqn:HP; try exact HC. fire_case F. cbn [fst set_prom cells].
     pose proof (FK op None (PK p op HP)) as Q. rewrite F in Q. exact Q.
   - destruct (nth_error (proms s) p) as [[op|]|] eqn:HP; try exact HC. fire_case F. cbn [fst set_prom cells].
